@@ -236,7 +236,7 @@ def RExp.eval (vl vr : Value F) : RExp → Outcome (Value F)
 /-- The computation part of an entry once both operands have been evaluated (zero guard, result expression,
 result field). -/
 def Entry.compute (e : Entry) (vl vr : Value F) : Outcome (Value F) :=
-  let isZero : Bool := match vr with | .int 0 => true | .dur 0 => true | _ => false
+  let isZero : Bool := match vr with | .int b => b == 0 | .dur b => b == 0 | _ => false
   if e.zeroGuard && isZero then .err else
   match e.rexp.eval ops reMatch vl vr with
   | .ok v => if v.ty = e.res then .ok v else .err
